@@ -16,7 +16,7 @@ INFO = {
     "bounds": {
         "quick": "(L,B) with B<=L<=6 incl. non-divisible; 1-3 co-batched multi-images with different type sets; device counts dividing B (fake device lists: "
                  "only len() is used); sample blocks 1x(1,2) pixels",
-        "thorough": "L<=8",
+        "thorough": "L<=10",
     },
     "outside": ["jax's PRNG itself (contract: random.permutation returns a permutation of range(L))"],
     "assumptions": ["random.permutation(key, L) returns a permutation of 0..L-1 (stubbed; asserted as exactly-one / at-most-one constraints)"],
@@ -24,7 +24,7 @@ INFO = {
 
 
 def cells(tier, seed):
-    Lmax = 6 if tier == "quick" else 8
+    Lmax = 6 if tier == "quick" else 10
     out = []
     for L in range(1, Lmax + 1):
         for B in range(1, L + 1):
